@@ -557,6 +557,13 @@ func parentMain(c *Ctx) int {
 			break
 		}
 		fmt.Fprintf(os.Stderr, "[%s] the %s child could not be reproduced on any single job; retrying the run\n", c.Spec.Engine, what)
+		// The jobs of one child run on 16 goroutines and share nothing but the package-level state of the code
+		// under test. A Go runtime "concurrent map" fatal with the library on the stack, which no single job
+		// reproduces, is the library's shared state being used unsynchronised: reported after the last attempt.
+		if attempt == 2 && !r.hung && strings.Contains(r.stderr, "fatal error: concurrent map") && strings.Contains(r.stderr, "alecthomas/participle") {
+			extra = append(extra, Violation{Key: "jobs running concurrently in one process (no single job reproduces it)", Class: "fatal-crash-under-concurrent-use", Detail: map[string]any{"stderr": firstLines(r.stderr, 60)}})
+			stopped = 1
+		}
 	}
 	return finish(c, last, extra, stopped)
 }
